@@ -53,6 +53,8 @@ type opGen struct {
 	// repetitive mode: wide selection sets, always re-used (long subgraph operations with repeated
 	// selection sets: what the minifier rewrites)
 	rep bool
+	// no arguments at all (fields with required arguments are left out)
+	noargs bool
 }
 
 func cloneT(ts []*TSel) []*TSel {
@@ -167,7 +169,19 @@ func (g *opGen) lit(typ, field, argName string, t *fedlab.TypeRef, depth int) *f
 	return g.scalarLit(typ, field, argName, t.Name)
 }
 
+func hasRequiredArg(f *fedlab.FieldDef) bool {
+	for _, a := range f.Args {
+		if a.Type.IsNonNull() && a.Default == nil {
+			return true
+		}
+	}
+	return false
+}
+
 func (g *opGen) args(typ string, f *fedlab.FieldDef) []TArg {
+	if g.noargs {
+		return nil
+	}
 	var out []TArg
 	for _, a := range f.Args {
 		required := a.Type.IsNonNull() && a.Default == nil
@@ -276,6 +290,9 @@ func (g *opGen) sels1(typ string, depth int, root bool) []*TSel {
 		if !leaf && depth <= 0 {
 			continue
 		}
+		if g.noargs && hasRequiredArg(f) {
+			continue
+		}
 		s := &TSel{Name: f.Name, Args: g.args(typ, f)}
 		if r.Chance(1, 6) {
 			s.Alias = fmt.Sprintf("%s_%d", f.Name, r.Pick(3))
@@ -286,7 +303,7 @@ func (g *opGen) sels1(typ string, depth int, root bool) []*TSel {
 				continue
 			}
 		}
-		if r.Chance(1, 14) && !root {
+		if r.Chance(1, 9) && !root {
 			s.Dir = &TDir{Name: common.PickOf(r, []string{"skip", "include"}), If: r.Chance(1, 2)}
 		}
 		add(s)
@@ -320,7 +337,36 @@ func (g *opGen) sels1(typ string, depth int, root bool) []*TSel {
 	if r.Chance(1, 5) && len(out) > 0 && !root {
 		add(&TSel{Name: "__typename"})
 	}
+	// @skip / @include on an inline fragment that holds some of the leaf fields
+	if r.Chance(1, 10) && !root && td.Kind == fedlab.KObject {
+		var leaves, rest []*TSel
+		for _, x := range out {
+			if x.Name != "" && len(x.Sels) == 0 && r.Chance(1, 2) {
+				leaves = append(leaves, x)
+			} else {
+				rest = append(rest, x)
+			}
+		}
+		if len(leaves) > 0 {
+			on := typ
+			if r.Chance(1, 3) {
+				on = ""
+			}
+			out = append(rest, &TSel{On: on, Sels: leaves,
+				Dir: &TDir{Name: common.PickOf(r, []string{"skip", "include"}), If: r.Chance(1, 2)}})
+		}
+	}
 	return out
+}
+
+// GenTemplateNoArgs: like GenTemplate without any argument.
+func GenTemplateNoArgs(r *common.Rand, cfg *fedlab.Config, u *fedlab.Universe, name string) *Template {
+	g := &opGen{r: r, cfg: cfg, u: u, max: 5 + r.Pick(10), seen: map[string][][]*TSel{}, noargs: true}
+	t := &Template{Name: name}
+	for tries := 0; len(t.Sels) == 0 && tries < 20; tries++ {
+		t.Sels = g.sels(cfg.Super.Query, 2+r.Pick(3), true)
+	}
+	return t
 }
 
 // Revalue keeps the shape of t and draws new argument values ("varying variable values").
@@ -380,6 +426,7 @@ type Spelled struct {
 	Variables string // JSON object text
 	OpName    string
 	NVars     int
+	BoolVars  []string // variables that are @skip/@include conditions
 }
 
 func valueJSON(v *fedlab.Value) *fedlab.J {
@@ -407,16 +454,17 @@ func valueJSON(v *fedlab.Value) *fedlab.J {
 }
 
 type speller struct {
-	memo  map[*fedlab.Value]*fedlab.Value // one spelling per template value (copied sub-selections must stay identical)
-	r     *common.Rand
-	cfg   *fedlab.Config
-	style Style
-	names []string
-	vars  []*fedlab.VarDef
-	vals  []fedlab.Member
-	frags []*fedlab.FragDef
-	nfrag int
-	next  int
+	boolVars []string
+	memo     map[*fedlab.Value]*fedlab.Value // one spelling per template value (copied sub-selections must stay identical)
+	r        *common.Rand
+	cfg      *fedlab.Config
+	style    Style
+	names    []string
+	vars     []*fedlab.VarDef
+	vals     []fedlab.Member
+	frags    []*fedlab.FragDef
+	nfrag    int
+	next     int
 }
 
 var renPool = []string{"id", "zz", "q", "input", "x1", "first", "B", "_v", "arg", "w", "k9", "val", "AA", "m", "n2", "o_o"}
@@ -456,7 +504,9 @@ func elemType(t *fedlab.TypeRef) *fedlab.TypeRef {
 	return nil
 }
 
-func (s *speller) asVar(t *fedlab.TypeRef, v *fedlab.Value) *fedlab.Value { return s.asVarD(t, v, true) }
+func (s *speller) asVar(t *fedlab.TypeRef, v *fedlab.Value) *fedlab.Value {
+	return s.asVarD(t, v, true)
+}
 
 // asVarD: mayDefault = the variable may carry its value as a default instead of in the JSON.
 // (Variables used INSIDE a list / object literal never do: the engine's extraction of the
@@ -552,11 +602,30 @@ func boolVal(b bool) *fedlab.Value {
 	return &fedlab.Value{Kind: fedlab.VBool, Raw: "false"}
 }
 
+// dir spells @skip / @include; in the variable styles the condition is a Boolean! variable whose
+// name is remembered (FlipBools sends the same text with other conditions)
+func (s *speller) dir(d *TDir) fedlab.Dir {
+	v := boolVal(d.If)
+	if s.style != StyleLit && s.style != StyleFrag {
+		v = s.asVar(fedlab.NonNull(fedlab.Named("Boolean")), v)
+		s.boolVars = append(s.boolVars, v.Raw)
+	}
+	return fedlab.Dir{Name: d.Name, Args: []fedlab.Arg{{Name: "if", Val: v}}}
+}
+
 func (s *speller) sels(typ string, ts []*TSel) []*fedlab.Sel {
 	var out []*fedlab.Sel
 	for _, t := range ts {
 		if t.Name == "" {
-			out = append(out, &fedlab.Sel{Kind: fedlab.SInline, On: t.On, Sels: s.sels(t.On, t.Sels)})
+			on := t.On
+			if on == "" {
+				on = typ
+			}
+			x := &fedlab.Sel{Kind: fedlab.SInline, On: t.On, Sels: s.sels(on, t.Sels)}
+			if t.Dir != nil {
+				x.Dirs = append(x.Dirs, s.dir(t.Dir))
+			}
+			out = append(out, x)
 			continue
 		}
 		x := &fedlab.Sel{Kind: fedlab.SField, Alias: t.Alias, Name: t.Name}
@@ -564,11 +633,7 @@ func (s *speller) sels(typ string, ts []*TSel) []*fedlab.Sel {
 			x.Args = append(x.Args, fedlab.Arg{Name: a.Name, Val: s.argVal(a)})
 		}
 		if t.Dir != nil {
-			v := boolVal(t.Dir.If)
-			if s.style != StyleLit && s.style != StyleFrag {
-				v = s.asVar(fedlab.NonNull(fedlab.Named("Boolean")), v)
-			}
-			x.Dirs = append(x.Dirs, fedlab.Dir{Name: t.Dir.Name, Args: []fedlab.Arg{{Name: "if", Val: v}}})
+			x.Dirs = append(x.Dirs, s.dir(t.Dir))
 		}
 		if len(t.Sels) > 0 {
 			sub := ""
@@ -631,7 +696,64 @@ func Spell(r *common.Rand, cfg *fedlab.Config, t *Template, style Style) *Spelle
 		r.Shuffle(len(s.vals), func(a, b int) { s.vals[a], s.vals[b] = s.vals[b], s.vals[a] })
 	}
 	op.Variables = fedlab.JO(s.vals...)
-	return &Spelled{Style: style, Text: op.Text(), Variables: op.VariablesJSON(), OpName: t.Name, NVars: len(op.Vars)}
+	return &Spelled{Style: style, Text: op.Text(), Variables: op.VariablesJSON(), OpName: t.Name, NVars: len(op.Vars), BoolVars: s.boolVars}
+}
+
+// FlipBools: the SAME text with some @skip/@include conditions flipped in the variables object
+// (what survives normalisation changes, the bytes of the query do not).
+func FlipBools(r *common.Rand, sp *Spelled) *Spelled {
+	if len(sp.BoolVars) == 0 {
+		return nil
+	}
+	j, err := fedlab.ParseJSON([]byte(sp.Variables))
+	if err != nil || j.Kind != fedlab.JObj {
+		return nil
+	}
+	must := sp.BoolVars[r.Pick(len(sp.BoolVars))]
+	isBool := map[string]bool{}
+	for _, n := range sp.BoolVars {
+		isBool[n] = true
+	}
+	out := fedlab.JO()
+	for _, m := range j.Members {
+		v := m.Val
+		if isBool[m.Key] && (m.Key == must || r.Chance(1, 3)) {
+			v = fedlab.JB(v.Kind != fedlab.JTrue)
+		}
+		out.Members = append(out.Members, fedlab.Member{Key: m.Key, Val: v})
+	}
+	c := *sp
+	c.Variables = out.String()
+	c.Style = "flip"
+	return &c
+}
+
+// MultiOp: one document with two operations (OpA, OpB); the two requests differ in operationName
+// only.  noargs: neither operation has arguments or variables (then nothing distinguishes the two
+// requests but the name).
+func MultiOp(r *common.Rand, cfg *fedlab.Config, u *fedlab.Universe, noargs bool) (*Spelled, *Spelled) {
+	var ta, tb *Template
+	sa, sb := StyleLit, StyleLit
+	if noargs {
+		ta, tb = GenTemplateNoArgs(r, cfg, u, "OpA"), GenTemplateNoArgs(r, cfg, u, "OpB")
+	} else {
+		ta, tb = GenTemplate(r, cfg, u), GenTemplate(r, cfg, u)
+		ta.Name, tb.Name = "OpA", "OpB"
+		sa, sb = StyleVar, StyleRen // disjoint variable names
+	}
+	a, b := Spell(r, cfg, ta, sa), Spell(r, cfg, tb, sb)
+	ja, _ := fedlab.ParseJSON([]byte(a.Variables))
+	jb, _ := fedlab.ParseJSON([]byte(b.Variables))
+	vars := fedlab.JO()
+	if ja != nil {
+		vars.Members = append(vars.Members, ja.Members...)
+	}
+	if jb != nil {
+		vars.Members = append(vars.Members, jb.Members...)
+	}
+	text := a.Text + " " + b.Text
+	return &Spelled{Style: "multiop", Text: text, Variables: vars.String(), OpName: "OpA"},
+		&Spelled{Style: "multiop", Text: text, Variables: vars.String(), OpName: "OpB"}
 }
 
 // HasArgs reports whether any field of the template carries arguments or directives (only then
